@@ -229,7 +229,9 @@ class RqListArg(Arg):
 
 
 def call_assembly(it, fn, a):
-    self, password, rqs = a
+    self, password, rqs = a[:3]
+    dryrun = a[3] if len(a) > 3 else True
+    skip = a[4] if len(a) > 4 else False
     install_request_models(it)
 
     def m_wrap(it_, args, kw):
@@ -240,7 +242,7 @@ def call_assembly(it, fn, a):
     it.models[CL.wrap_stmtrq] = m_wrap
     for nm in set(MSGSET_OF.values()):
         it.models[getattr(CL, nm)] = (lambda nm_: lambda it_, args, kw: (log(it_, nm_, list(args), dict(kw)), Marker(nm_, members=list(args), kw=dict(kw)))[1])(nm)
-    return it.call(OFXClient.request_statements, [self, password] + list(rqs), {"dryrun": True})
+    return it.call(OFXClient.request_statements, [self, password] + list(rqs), {"dryrun": dryrun, "skip_profile": skip})
 
 
 def assembled_ok(ghost, rqs, client):
@@ -286,9 +288,12 @@ A0 = len(CONTRACTS)
 KIND_PATTERNS = [[], [StmtRq], [InvStmtRq, StmtRq], [StmtRq, CcStmtRq, StmtRq], [StmtEndRq, StmtRq, CcStmtEndRq, CcStmtRq],
                  [InvStmtRq, CcStmtRq, StmtRq, InvStmtRq, StmtEndRq], [CcStmtRq, CcStmtRq, CcStmtEndRq, StmtEndRq, StmtEndRq, StmtRq]]
 for kinds in KIND_PATTERNS:
-    CONTRACTS.append(Contract("ofxtools.Client:OFXClient.request_statements", args=[ClientArg(), T("password"), RqListArg(kinds)], call=call_assembly,
+    CONTRACTS.append(Contract("ofxtools.Client:OFXClient.request_statements", args=[ClientArg(), T("password"), RqListArg(kinds), BoolArg("dryrun"), BoolArg("skip_profile")], call=call_assembly,
                               ensures=[("one-wrapper-per-request-in-its-own-message-set", "spec.client.assembled_ok(ghost, rqs, self)"),
+                                       ("C14-profile-looked-up-only-when-needed (never on a dry run), whatever is requested", "len(spec.client.calls(ghost, '_get_service_urls')) == (0 if (dryrun or skip_profile) else 1)"),
+                                       ("C14-url-rule", "spec.client.calls(ghost, 'download')[0][2]['url'] == ('' if dryrun else (self.url if skip_profile else spec.client.PROFILE_URL()))"),
+                                       ("C14-dryrun-passed-on", "spec.client.calls(ghost, 'download')[0][2]['dryrun'] is dryrun"),
                                        ("sign-on-from-the-password", "len(spec.client.calls(ghost, 'signon')) == 1 and spec.client.calls(ghost, 'signon')[0][1] is password"),
                                        ("one-download-of-that-OFX", "len(spec.client.calls(ghost, 'download')) == 1 and len(spec.client.calls(ghost, 'OFX')) == 1")],
-                              notes=f"request kinds in this order: {[k.__name__ for k in kinds]}; all fields symbolic; wrap_stmtrq abstract (its arms have their own contracts)",
-                              props=["C06"], symbolic_only=True))
+                              notes=f"request kinds in this order: {[k.__name__ for k in kinds]}; all fields symbolic; dry run / skip_profile symbolic; wrap_stmtrq abstract (its arms have their own contracts)",
+                              props=["C06", "C14"], symbolic_only=True))
